@@ -985,8 +985,8 @@ def check_panics(ctx, B, rule, reviewed=None, kinds=None, key_prefix='PANIC'):
         else:
             ctx.bad(rule, inst, '%s site not discharged: %s' % (site['kind'], detail), where, key='%s:%s' % (key_prefix, inst))
     # the scan itself is an instance: how many panic-capable constructs a body contains is a matter of style (`data[0] == x` or a slice pattern)
-    if not kinds:
-        ctx.ok(rule, '%s:examined' % B.path, 'body examined: %d panic-capable site(s), %d block(s)' % (n, len(B.blocks)), ctx.where(B))
+    if not kinds or n == 0:
+        ctx.ok(rule, '%s:examined' % B.path, 'body examined: %d %s site(s), %d block(s)' % (n, 'panic-capable' if not kinds else '/'.join(kinds), len(B.blocks)), ctx.where(B))
     return n
 
 
